@@ -345,7 +345,7 @@ class Interp(object):
             self.emit(label, 'str' if marker is None else 'marker', d, nb * 8, raws, list(raws))
         elif k == 'code':
             w = nbits + extra_width
-            raws = self.port.uint(w, self.info(label, 'code', d, w, role=_role(d)))
+            raws = self.port.uint(w, self.info(label, 'code', d, w, role=_role(d) if marker is None else None))
             if w > 1:
                 raws = [None if r == ones(w) else r for r in raws]
             self.emit(label, 'code' if marker is None else 'marker', d, w, raws, list(raws))
@@ -363,7 +363,8 @@ class Interp(object):
             ref = ref * 10 ** self.y207
             if w < 1:
                 raise RefError('field width %d' % w)
-            raws = self.port.uint(w, self.info(label, 'num', d, w, scale=sc, ref=ref, role=_role(d)))
+            raws = self.port.uint(w, self.info(label, 'num', d, w, scale=sc, ref=ref,
+                                                role=_role(d) if marker is None else None))
             self.emit(label, 'num' if marker is None else 'marker', d, w, raws,
                       [user_value(r, sc, ref) for r in raws])
 
